@@ -22,6 +22,7 @@ RULE = ("every exported Aggregate class (as root) x profiles {minimal, maximal w
         "all zones, decimals of every scale} x 6 wire forms {XML, SGML closed, SGML unclosed} x {pretty, plain} with header versions rotating "
         "over 102,103,151,160 / 200..220, plus bare ET.tostring(to_etree()). A case = (class, generator seed string, wire form); "
         "non-trivial = instance with at least one child; distinct by (class, snapshot fingerprint, form)")
+RULE += ' Added later: instances built with keyword=None for the children they lack; a >64 KiB document at several byte alignments; after the round trip a nested value is assigned / a member replaced and the instance written again (compared with a never-written twin).'
 ASSUMPTIONS = ["modelwalk.py equality = the property's (ms instants, decimal value+exponent, exact strings)",
                "generator instances are valid (a constructor rejection of a generated candidate is reported, not resampled)",
                "UNSPECIFIED, not generated: decimals with positive exponent; strings with leading/trailing whitespace or empty; list members out "
